@@ -35,6 +35,11 @@ enum Op {
     Outs(Vec<TxOut>),
     HashIn(SigHash),
     GetOutpoints,
+    Fork,
+    Swap,
+    New(u32, u32),
+    Default,
+    Reparse(u8), // 0 bytes, 1 hex, 2 JSON, 3 CBOR
 }
 
 const KEY: [u8; 32] = [
@@ -105,6 +110,14 @@ fn parse_op(s: &str) -> Option<Op> {
         ("aos", 2) => Op::Outs(parse_elems(f[1], 2, parse_out)?),
         ("hi", 2) => Op::HashIn(flag_of(f[1])?),
         ("go", 1) => Op::GetOutpoints,
+        ("fk", 1) => Op::Fork,
+        ("sw", 1) => Op::Swap,
+        ("new", 3) => Op::New(num(f[1])?, num(f[2])?),
+        ("def", 1) => Op::Default,
+        ("fb", 1) => Op::Reparse(0),
+        ("fh", 1) => Op::Reparse(1),
+        ("fj", 1) => Op::Reparse(2),
+        ("fc", 1) => Op::Reparse(3),
         ("sh", 5) => {
             let fl: u64 = num(f[1])?;
             if fl > 255 {
@@ -142,6 +155,7 @@ pub fn run(op: &str, args: &[String]) -> Option<String> {
             }
         }
     }
+    let mut other: Option<Transaction> = None;
     let mut fields: Vec<String> = Vec::new();
     for o in ops {
         let mut pre = "n".to_string();
@@ -162,6 +176,26 @@ pub fn run(op: &str, args: &[String]) -> Option<String> {
             Op::Outs(v) => tx.add_outputs(v),
             Op::GetOutpoints => {
                 let _ = tx.get_outpoints();
+            }
+            Op::Fork => other = Some(tx.clone()),
+            Op::Swap => {
+                if let Some(o) = other.take() {
+                    other = Some(std::mem::replace(&mut tx, o));
+                }
+            }
+            Op::New(v, lt) => tx = Transaction::new(v, lt),
+            Op::Default => tx = Transaction::default(),
+            Op::Reparse(kind) => {
+                let r = match kind {
+                    0 => tx.to_bytes().and_then(|b| Transaction::from_bytes(&b)),
+                    1 => tx.to_hex().and_then(|h| Transaction::from_hex(&h)),
+                    2 => tx.to_json_string().and_then(|j| Transaction::from_json_string(&j)),
+                    _ => tx.to_compact_bytes().and_then(|b| Transaction::from_compact_bytes(&b)),
+                };
+                match r {
+                    Ok(t) => tx = t,
+                    Err(_) => return Some("ERR".into()),
+                }
             }
             Op::HashIn(flag) => {
                 pre = ck(&tx.hash_inputs(flag));
